@@ -36,7 +36,7 @@ def hook_count():
 def explore(run, focus, thorough):
     """all single-reader schedules: every observation point x {probe, hold}. focus: 'C08' | 'C09'"""
     n = hook_count()
-    stats = {"observation_points": n, "schedules": 0, "events": 0, "reader_granted": 0, "reader_blocked": 0, "held_across": 0, "wx_samples": 0, "repeats": 3 if thorough else 1}
+    stats = {"observation_points": n, "schedules": 0, "events": 0, "reader_granted": 0, "reader_blocked": 0, "held_across": 0, "wx_samples": 0, "repeats": 10 if thorough else 1}
     # probe / hold: a reader arrives while the assembling thread is parked at the point; abort: the assembling thread PANICS at the point
     # (a failing `expect` on mprotect, a panic in the user's alter closure) and a reader that outlives it tries the lock afterwards
     jobs = [(k, m) for k in range(n) for m in ("probe", "hold", "abort")] * stats["repeats"]
